@@ -120,7 +120,10 @@ Section VarKeys.
     | FVar x op y =>
         match rget (vk x) r with
         | Some l => match rget (vk y) r with
-                    | Some rr => match op with Ne => negb (N.eqb l rr) | Eq => N.eqb l rr | _ => true end
+                    | Some rr => match op with
+                                 | Ne => negb (N.eqb l rr) | Eq => N.eqb l rr
+                                 | _ => cmp_num op (nv l) (nv rr)
+                                 end
                     | None => cmp_num op (nv l) 0%Z
                     end
         | None => true
